@@ -168,3 +168,10 @@ PROPS["C12"] = {
         {"name": "c12-invitations-descriptors", "pkg": ROOT, "run": "TestVerifC12", "timeout": {"quick": 600, "thorough": 2400}},
     ],
 }
+PROPS["C19"] = {
+    "level": "exploration",
+    "units": [
+        {"name": "c19-rpc-robustness", "pkg": ROOT, "run": "TestVerifC19", "timeout": {"quick": 900, "thorough": 3400}},
+        {"name": "c19-helpers", "pkg": ROOT, "run": "TestVerifC19Helpers", "timeout": {"quick": 600, "thorough": 1800}},
+    ],
+}
